@@ -3,6 +3,7 @@ package dag
 import (
 	"errors"
 	"fmt"
+	"math"
 	"os"
 	"os/exec"
 	"regexp"
@@ -55,6 +56,9 @@ var (
 	errInvalidKeyType             = errors.New("invalid key type")
 	errExecutorConfigMustBeString = errors.New(
 		"executor config key must be string",
+	)
+	errExecutorConfigValueNotFinite = errors.New(
+		"executor config value must be a finite number",
 	)
 	errDuplicateFunction  = errors.New("duplicate function")
 	errFuncParamsMismatch = errors.New(
@@ -697,42 +701,58 @@ func assignValues(command string, params map[string]string) string {
 }
 
 // convertMap converts a map[any]any to a map[string]any.
+// Nested maps are converted at any depth, also inside lists, so that the
+// configuration can always be encoded as JSON with the status of the DAG.
 func convertMap(m map[string]any) error {
-	if m == nil {
-		return nil
-	}
-
-	queue := []map[string]any{m}
-
-	for len(queue) > 0 {
-		curr := queue[0]
-
-		for k, v := range curr {
-			mm, ok := v.(map[any]any)
-			if !ok {
-				// TODO: do we need to return an error here?
-				continue
-			}
-
-			ret := make(map[string]any)
-			for kk, vv := range mm {
-				key, err := parseKey(kk)
-				if err != nil {
-					return fmt.Errorf(
-						"%w: %s", errExecutorConfigMustBeString, err,
-					)
-				}
-				ret[key] = vv
-			}
-
-			delete(curr, k)
-			curr[k] = ret
-			queue = append(queue, ret)
+	for k, v := range m {
+		converted, err := convertValue(v)
+		if err != nil {
+			return err
 		}
-		queue = queue[1:]
+		m[k] = converted
 	}
 
 	return nil
+}
+
+// convertValue converts the maps inside a configuration value.
+func convertValue(v any) (any, error) {
+	switch val := v.(type) {
+	case map[any]any:
+		ret := make(map[string]any, len(val))
+		for kk, vv := range val {
+			key, err := parseKey(kk)
+			if err != nil {
+				return nil, fmt.Errorf(
+					"%w: %s", errExecutorConfigMustBeString, err,
+				)
+			}
+			converted, err := convertValue(vv)
+			if err != nil {
+				return nil, err
+			}
+			ret[key] = converted
+		}
+		return ret, nil
+
+	case []any:
+		ret := make([]any, len(val))
+		for i, vv := range val {
+			converted, err := convertValue(vv)
+			if err != nil {
+				return nil, err
+			}
+			ret[i] = converted
+		}
+		return ret, nil
+
+	case float64:
+		if math.IsNaN(val) || math.IsInf(val, 0) {
+			return nil, errExecutorConfigValueNotFinite
+		}
+	}
+
+	return v, nil
 }
 
 // buildConfigEnv builds the environment variables from the map.
